@@ -92,7 +92,7 @@ pub fn run(ctx: &Arc<Ctx>) {
     refmodels::selftest::run(&["sm3", "sm2"]).unwrap_or_else(|e| ctx.machinery_error(format!("reference self-test failed: {}", e)));
     let pr = sm2::params();
     let (n, p) = (pr.n.clone(), pr.p.clone());
-    ctx.set_rule("base ciphertexts (message lengths {1,17,32,33}, thorough 1..=40, x 2 orders x 2 C1 encodings, made by the reference encryptor): every single-bit flip of the whole ciphertext; every truncation length; C1 replaced by (x,y+-1), (x+-1,y), (0,0), points on y^2=x^3+ax+b' (incl. an order-2 point) with C2,C3 completed correctly for that point, compressed x that is a non-residue, x+p aliases of an on-curve point with tiny x, C1 of another ciphertext; C2/C3 swapped between two ciphertexts. Oracle: result must be Err — never Ok(anything), never a panic; the untouched ciphertext must decrypt.");
+    ctx.set_rule("base ciphertexts (message lengths {1,17,32,33}, thorough 1..=40, x 2 orders x 2 C1 encodings, made by the reference encryptor): every single-bit flip of the whole ciphertext; every truncation length; C1 replaced by (x,y+-1), (x+-1,y), (0,0), points on y^2=x^3+ax+b' (incl. an order-2 point) with C2,C3 completed correctly for that point, compressed x that is a non-residue, x+p aliases of an on-curve point with tiny x, compressed non-residue x with the body completed for the bogus root, a ciphertext whose KDF output is all zero, C1 of another ciphertext; C2/C3 swapped between two ciphertexts. Oracle: result must be Err — never Ok(anything), never a panic; the untouched ciphertext must decrypt.");
     let mut g = SplitMix::new(ctx.seed, "c06");
     let lens: Vec<usize> = ctx.tier.pick(vec![1, 17, 32, 33], (1..=40).collect());
     let d = hb(ANNEX_D);
@@ -201,6 +201,36 @@ pub fn run(ctx: &Arc<Ctx>) {
                     let mut c1 = vec![0x02];
                     c1.extend_from_slice(&cand(&nx));
                     cases.push(mk(raw_encode(&c1, &base.c2, &base.c3, c1c3c2), None, "compressed-nonresidue-x"));
+                    // invalid-curve variant: a decoder that skips the root check ends up with
+                    // y' = rhs^((p+1)/4) (parity-adjusted), a point on another curve; complete the body for it
+                    let rhs = (&nx * &nx * &nx + &pr.a * &nx + &pr.b) % &p;
+                    let y0 = rhs.modpow(&((&p + 1u32) >> 2), &p);
+                    for tag in [0x02u8, 0x03] {
+                        let y = if y0.bit(0) == (tag == 0x03) { y0.clone() } else { (&p - &y0) % &p };
+                        let fpt: Pt = Some((nx.clone(), y));
+                        if let Some((c2, c3)) = complete(dd, &fpt, &msg) {
+                            let mut c1 = vec![tag];
+                            c1.extend_from_slice(&cand(&nx));
+                            cases.push(mk(raw_encode(&c1, &c2, &c3, c1c3c2), None, "compressed-nonresidue-x/invalid-curve-completed"));
+                        }
+                    }
+                }
+                // step B4: a ciphertext whose KDF output is all zero must be refused (1-byte body, crafted nonce)
+                if l == 1 {
+                    let mut kz = g.nonzero_below(&(&n - (BigUint::one() << 40usize)));
+                    let mut sp = sm2::mul(&kz, &pk);
+                    for _ in 0..(1 << 14) {
+                        let (x2, y2) = sm2::xy_bytes(&sp);
+                        if sm3::kdf(&[&x2[..], &y2[..]].concat(), 1)[0] == 0 {
+                            let m1 = [0x5au8];
+                            let c3 = sm3::sm3_cat(&[&x2, &m1, &y2]);
+                            let c1b = sm2::encode_point(&sm2::g_mul(&kz), compressed);
+                            cases.push(mk(raw_encode(&c1b, &m1, &c3, c1c3c2), None, "kdf-output-all-zero"));
+                            break;
+                        }
+                        sp = sm2::add(&sp, &pk);
+                        kz += 1u32;
+                    }
                 }
                 // second ciphertext for swaps
                 let k2 = g.nonzero_below(&n);
